@@ -19,7 +19,7 @@ for p in props:
             "thorough_cmd": f"./check {i} --tier thorough",
             "evidence_file": f"evidence/{i}.json",
             "replay_cmd_template": f"./check {i} --replay {{path}}",
-            "engine": "hv+hv-loom" if i in ("C10", "C18") else "hv",
+            "engine": "hv+hv-loom" if i in ("C10", "C15", "C18") else "hv",
             "level_claimed": {"category": "model_checking", "text": text, "design_ref": ref},
             "level_note": note,
             "technique": tech,
@@ -38,7 +38,7 @@ m = {
  },
  "engines": [
   {"name": "hv", "path": "hv", "serves_properties": [c["property_id"] for c in checks], "kind_free_text": "bounded-exhaustive explicit-state explorer driving the real crates: shape spaces, operation histories by replay from a fresh instance, reference-model and differential oracles"},
-  {"name": "hv-loom", "path": "hv-loom", "serves_properties": ["C10", "C18"], "kind_free_text": "loom (DPOR, preemption-bounded) over the repository's real parallel.rs files, path-rewritten at build time"},
+  {"name": "hv-loom", "path": "hv-loom", "serves_properties": ["C10", "C15", "C18"], "kind_free_text": "loom (DPOR, preemption-bounded) over the repository's real parallel.rs files, path-rewritten at build time"},
  ],
  "checks": checks,
  "not_applicable": na,
